@@ -208,7 +208,24 @@ fn gen_scene(rng: &mut Rng, idx: u64) -> Option<Scene> {
             }
         }
     }
+    // a seventh of the ordinary scenes: one or two joints get asymmetric non-wrapping limits that reach beyond +pi
+    // (span 5 .. 6.2 rad starting just below the smaller of start / goal)
+    if (layout == "free" || layout == "obstacle" || layout == "near_goal") && rng.usize(7) == 0 {
+        let c = cell.constraints;
+        let (mut lf, mut lt) = (c.from, c.to);
+        for _ in 0..(1 + rng.usize(2)) {
+            let j = rng.usize(6);
+            lf[j] = start[j].min(goal[j]) - rng.range(0.05, 0.5);
+            lt[j] = lf[j] + rng.range(5.0, 6.2);
+        }
+        let c2 = Constraints::new(lf, lt, 0.0);
+        if c2.compliant(&start) && c2.compliant(&goal) {
+            cell.constraints = c2;
+        }
+    }
     let max_try = if layout == "tiny_budget" { 1 + rng.usize(4) } else { 300 + rng.usize(500) };
+    // one scene in twelve is planned with a step of 1.2 .. 6 rad (more than a sixth of a turn per hop)
+    let step = if rng.usize(12) == 0 && layout != "tiny_cell" && layout != "narrow_limits" { rng.range(1.2, 6.0) } else { step };
     Some(Scene { cell, start, goal, layout, step, max_try })
 }
 
@@ -264,6 +281,14 @@ fn check_path(mon: &mut Mon, s: &Scene, robot: &KinematicsWithShape, path: &Vec<
         if robot.collides(node) {
             ok = false;
             mon.violation(&format!("path:colliding-node:{}", s.layout), "a path node is reported colliding by the same robot", detail("free", json!({"index": k, "node": jf(node)})));
+            break;
+        }
+        // (literal reading for non-wrapping limits: a node a whole turn away from the box is not "within limits",
+        // although it is the same angle - evaluated when the caller's own start and goal are literally inside)
+        let literal_inside = |v: &[f64; 6]| (0..6).all(|j| cons.from[j] >= cons.to[j] || cons.to[j] - cons.from[j] >= 2.0 * std::f64::consts::PI || (v[j] >= cons.from[j] - 1e-9 && v[j] <= cons.to[j] + 1e-9));
+        if literal_inside(&s.start) && literal_inside(&s.goal) && !literal_inside(node) {
+            ok = false;
+            mon.violation("path:node-outside-the-limit-box", "a path node lies outside [from, to] of a non-wrapping range although start and goal lie inside", detail("limits-literal", json!({"index": k, "node": jf(node), "from": jf(&cons.from), "to": jf(&cons.to)})));
             break;
         }
         if !cons.compliant(node) {
